@@ -1,7 +1,7 @@
 """C06 — checksum is CRC-16/MODBUS; damaged frames are never delivered."""
 import itertools
 
-LEAN_MODULES = ["PyAirtouch.Props.C06"]
+LEAN_MODULES = ["PyAirtouch.Props.C06", "PyAirtouch.Props.C06Frame"]
 LEVEL = "proof"
 
 
@@ -87,7 +87,7 @@ def run(ctx, deep=False):
         "calculate(): every 0..2-byte string exhaustively (this exercises every (low register byte, data byte) pair "
         "of the table step), 3-byte strings (%s), seeded random strings up to 600 bytes; validate(): seeded cases with "
         "correct / single-bit-damaged / random / wrong-length / byte-swapped check values. distinct = distinct inputs; "
-        "non-trivial = non-empty data" % ("all 16.7 M" if thorough else "100 000 seeded"))
+        "non-trivial = non-empty data. Receive path: frames written by the real send path are damaged (single bit at every covered / check position (sampled in quick), double bits, <=16-bit bursts inside the covered bytes, check-byte damage) and fed to the real socket: never delivered, connection re-established, a later intact frame delivered" % ("all 16.7 M" if thorough else "100 000 seeded"))
     one_two = [b""] + [bytes([a]) for a in range(256)] + [bytes([a, b]) for a in range(256) for b in range(256)]
     _compare_calculate(ctx, one_two, "calculate:len0-2")
     ctx.sample({"calculate": "80b0012b0000", "expected": "f52f (vendor example)"})
@@ -104,9 +104,91 @@ def run(ctx, deep=False):
     _compare_calculate(ctx, rnd, "calculate:random")
     ctx.sample({"calculate": _hex(rnd[0])})
     _compare_validate(ctx, 20000 if thorough else 3000)
+    _receive_path(ctx, thorough)
     ctx.assumptions += [
         "bytes objects are modelled as lists of naturals < 256",
     ]
+
+
+def _damage(frame, covered_from, rng, thorough):
+    """single-bit, double-bit and <=16-bit burst damage confined to the covered bytes, and damage confined to the check bytes"""
+    n = len(frame)
+    out = []
+    bits = [(i, b) for i in range(covered_from, n) for b in range(8)]
+    singles = bits if thorough else rng.sample(bits, min(len(bits), 40))
+    for i, b in singles:
+        f = bytearray(frame); f[i] ^= 1 << b
+        out.append(("single", bytes(f)))
+    for _ in range(400 if thorough else 25):
+        (i, b), (j, c) = rng.sample(bits, 2)
+        f = bytearray(frame); f[i] ^= 1 << b; f[j] ^= 1 << c
+        out.append(("double", bytes(f)))
+    for _ in range(400 if thorough else 25):          # burst within the covered bytes
+        start = rng.randrange(covered_from * 8, (n - 2) * 8 - 16) if (n - 2 - covered_from) * 8 > 16 else covered_from * 8
+        pat = rng.randrange(1, 1 << 16)
+        f = bytearray(frame)
+        for k in range(16):
+            pos = start + k
+            if pat >> k & 1 and pos < (n - 2) * 8:
+                f[pos // 8] ^= 1 << (pos % 8)
+        if bytes(f) != frame:
+            out.append(("burst16", bytes(f)))
+    for _ in range(60 if thorough else 10):           # damage confined to the check bytes
+        f = bytearray(frame)
+        f[n - 2] ^= rng.randrange(256); f[n - 1] ^= rng.randrange(256)
+        if bytes(f) != frame:
+            out.append(("check", bytes(f)))
+    return out
+
+
+def _receive_path(ctx, thorough):
+    """damaged frames through the real receive path: never delivered; the connection is re-established and a later intact frame is delivered"""
+    import sockcheck
+    import frame_try
+    for gen in (4, 5):
+        real = frame_try.Real(gen)
+        cases = frame_try.gen_cases(real, ctx.rng, 8 if thorough else 3, ctx)
+        frames = [bytes(b) for (tag, b) in cases if str(tag).startswith("sent") and 10 <= len(b) <= 80]
+        ctx.rng.shuffle(frames)
+        covered_from = 2 if gen == 4 else 14
+        items, meta = [], []
+        for fr in frames[: (12 if thorough else 4)]:
+            for kind, dmg in _damage(fr, covered_from, ctx.rng, thorough):
+                lenpos = (6, 7) if gen == 4 else (18, 19)
+                sc = [("net", "accept"), ("open",), ("adv", 8), ("peerbytes", dmg.hex()), ("adv", 4)]
+                if any(dmg[i] != fr[i] for i in lenpos):
+                    # a damaged length field makes the receiver wait for bytes that never come (the stream is out of step):
+                    # the console gives up on the connection, as it would after its own timeout
+                    sc.append(("peer", "eof"))
+                    sc.append(("adv", 4))
+                items.append(("faults", sc + [("heal",)]))
+                meta.append((kind, fr, dmg))
+        results = sockcheck.run_scripts([s for _, s in items], gen=gen)
+        spec = ctx.oracle(["crc " + _hex(d[covered_from:-2]) for _, _, d in meta])
+        obs_list = []
+        for (kind, fr, dmg), r, (_, script), sp in zip(meta, results, items, spec):
+            if "error" in r:
+                raise RuntimeError(r["error"])
+            ctx.case(("rx", gen, dmg))
+            ctx.count("rx:" + kind)
+            in_class = _hex(dmg[-2:]) != sp          # the Spec says the damaged frame does not validate
+            # deliveries: the probe frame(s) only; the damaged frame (whatever it decodes to) must not appear before `heal`
+            pre = []
+            for line in r["obs"]:
+                if line.startswith("heal"):
+                    break
+                if line.startswith("deliver"):
+                    pre.append(line)
+            if in_class and pre:
+                ctx.violation("C06:damaged-frame-delivered", "a %s-damaged frame %s (check bytes do not match CRC-16/MODBUS) was delivered to subscribers" % (kind, dmg.hex()),
+                              kind="history", monitor="c06", script=script, gen=gen, implementation_output=r["obs"], spec_verdict="not delivered")
+            obs_list.append(r["obs"])
+        verdicts = sockcheck.sockobs.judge_many(ctx, obs_list, ["c07a", "c07c"]) if obs_list else []
+        for (kind, fr, dmg), (_, script), v, obs in zip(meta, items, verdicts, obs_list):
+            if not (v["c07a"] and v["c07c"]):
+                ctx.violation("C06:no-recovery", "after a damaged frame the client did not re-establish the connection / deliver a later intact frame (script %s)" % script,
+                              kind="history", monitor="c07c", script=script, gen=gen, implementation_output=obs, spec_verdict="reconnect and deliver")
+                break
 
 
 def search(ctx):
@@ -115,6 +197,9 @@ def search(ctx):
 
 
 def replay(ctx, data):
+    if "script" in data:
+        import sockcheck
+        return sockcheck.replay(ctx, data)
     calc = _impl()
     inp = data.get("input")
     if isinstance(inp, list):
